@@ -42,6 +42,8 @@ REWRITES = ["dealias", "permute_constraints", "permute_variables", "duplicate_co
 def _cfg_for(name, cfg, model2, back_inv=None):
     """Configurations are kept, except data attached to domain indices (cost tables) which are dropped."""
     c = {k: v for k, v in cfg.items() if k != "costs"}
+    if name in ("dealias", "permute_variables"):
+        c.pop("decision", None)  # an explicit order of the decision domains refers to shared-domain indices too
     if c.get("vh") == "max_regret":
         c["vh"] = "first"
     if c.get("dh") == "min_cost":
